@@ -7,7 +7,8 @@ forbids unsafe code; by Rust's aliasing rules a safe function holding `&mut Half
 only that half, for every interleaving.  (2) every encrypt-family facade method writes only
 the encrypting half, every decrypt-family method only the decrypting half (write frame from
 the MIR effect summary).  (3) all types are Send (rustc's own trait solver).  (4) split
-returns the two fields moved, Clone is derived, unsplit's Ok is built from self and the
+returns the two fields moved, Clone of every type in the closure is field-for-field (derived, or a
+hand-written copy of every field to its own place), unsplit's Ok is built from self and the
 parameter unchanged, combined constructors key both halves from the same parameter.
 (5) unsplit succeeds iff is_pair_of, which is a whole-value equality of the two stored keys."""
 import cfg
@@ -24,7 +25,7 @@ OK_PRIMS = ("int", "bool", "char")
 
 def floors_for(feats):
     n = sum(1 for c in headers.COMBINED if c[0] is None or c[0] in feats)
-    return {"type-closure": 3 * n, "send": 3 * n, "census": 3, "clone": 3 * n, "split": n, "ctor-same-key": n, "frame": 10 * n - (3 if "wrath-header" in feats else 0), "unsplit": 5}
+    return {"type-closure": 3 * n, "send": 3 * n, "census": 3, "clone": 6 * n, "split": n, "ctor-same-key": n, "frame": 10 * n - (3 if "wrath-header" in feats else 0), "unsplit": 5}
 
 
 def closure_ok(fb, ty, seen, depth=0):
@@ -35,6 +36,8 @@ def closure_ok(fb, ty, seen, depth=0):
         return True, ""
     if k == "array":
         return closure_ok(fb, ty.elem, seen, depth + 1)
+    if k == "adt" and ty.s.split("<")[0] in ("std::num::Wrapping", "core::num::Wrapping") and ty.s.split("<")[1].rstrip(">") in ("u8", "u16", "u32", "u64", "usize"):
+        return True, ""         # an integer with wrapping operators: owned plain data
     if k == "adt" and ty.d.get("local"):
         if ty.path in seen:
             return True, ""
@@ -52,6 +55,7 @@ def closure_ok(fb, ty, seen, depth=0):
 
 def check(ctx, rep):
     fb = ctx.fb
+    closure = set()
     for feat, comb, enc, dec in headers.active(ctx):
         for t in (comb, enc, dec):
             a = fb.adts.get(t)
@@ -62,7 +66,9 @@ def check(ctx, rep):
             ok, why = closure_ok(fb, fb.ty(a["ty"]), seen)
             rep.check(ok, "type-closure", t, "owned-plain-data", "closure %s is u8 / arrays / structs only" % sorted(seen), "state can be shared between directions: " + why)
             rep.check(a.get("send") is True, "send", t, "Send", "rustc: %s: Send" % t, "%s is not Send" % t)
-            rep.check("std::clone::Clone" in fb.derived_traits(t), "clone", t, "derived", "Clone is derived (field-wise copy)", "Clone is not derived for %s (a hand-written clone may drop or share state)" % t)
+            has_clone = "std::clone::Clone" in fb.derived_traits(t) or any(p_.startswith("<" + t) and p_.endswith(" as std::clone::Clone>::clone") for p_ in fb.bodies)
+            rep.check(has_clone, "clone", t, "is-clone", "%s: Clone" % t, "%s is no longer Clone" % t)
+            closure |= seen
         ei = headers.half_field(ctx, comb, enc)
         di = headers.half_field(ctx, comb, dec)
         if ei is None or di is None:
@@ -127,6 +133,9 @@ def check(ctx, rep):
                 r = ase.ret
                 good = r[0] == "ref" and r[1] == ("field", ("deref", ("param", 1)), want)
                 rep.check(good, "frame", comb + "::" + acc, "accessor", "returns &mut of the %s half" % acc, "%s() hands out %s" % (acc, show(r, maxdepth=3)), ase.body.loc())
+    # ---- a copy of any state-carrying type of the closure is the same value (derived, or a
+    # hand-written field-for-field copy): `clone` along the way changes nothing
+    util.clone_fidelity(ctx, rep, "clone", sorted(closure), role="fidelity")
     # ---- census
     st = fb.d["statics"]
     rep.check(not st, "census", "crate", "statics", "0 statics / thread-locals", "statics: %s" % [s["path"] for s in st])
